@@ -51,8 +51,8 @@ impl<'a> Resources<'a> {
 	fn slice<T: Pod>(&self, offset: u32) -> Result<&'a T> {
 		let start = offset as usize;
 		let end = mem::size_of::<T>().wrapping_add(start);
-		// Alignment checking
-		if !cfg!(feature = "unsafe_alignment") && start & (mem::align_of::<T>() - 1) != 0 {
+		// Alignment checking: the address is dereferenced, not the offset, and the section itself may be misaligned
+		if !cfg!(feature = "unsafe_alignment") && (self.section.as_ptr() as usize).wrapping_add(start) & (mem::align_of::<T>() - 1) != 0 {
 			return Err(Error::Misaligned);
 		}
 		// Range checking done by the indexing operator
@@ -67,7 +67,7 @@ impl<'a> Resources<'a> {
 		let size_of = mem::size_of::<T>().checked_mul(len).ok_or(Error::Overflow)?;
 		let end = start.wrapping_add(size_of);
 		// Alignment checking
-		if !cfg!(feature = "unsafe_alignment") && start & (mem::align_of::<T>() - 1) != 0 {
+		if !cfg!(feature = "unsafe_alignment") && (self.section.as_ptr() as usize).wrapping_add(start) & (mem::align_of::<T>() - 1) != 0 {
 			return Err(Error::Misaligned);
 		}
 		// Range checking done by the indexing operator
@@ -78,7 +78,7 @@ impl<'a> Resources<'a> {
 	fn slice_ws(&self, offset: u32) -> Result<&'a [u16]> {
 		let offset = offset as usize;
 		// Alignment checking
-		if !cfg!(feature = "unsafe_alignment") && offset & 1 != 0 {
+		if !cfg!(feature = "unsafe_alignment") && (self.section.as_ptr() as usize).wrapping_add(offset) & 1 != 0 {
 			return Err(Error::Misaligned);
 		}
 		// The name is prefixed by its length in words
